@@ -127,6 +127,7 @@ type abstraction struct {
 }
 
 type Gen struct {
+	ownedCache      map[*ssa.Function]map[ssa.Value]bool
 	loopSigs        []string
 	loopRemapped    bool
 	W               *World
